@@ -998,17 +998,25 @@ class Variable(CanBehaveLikeAVariable[T]):
         or has no domain and will instantiate new values by constructing the type if the type is given,
         or will yield from current domain if exists.
         """
-        self._yield_when_false_ = yield_when_false
         sources = sources or {}
         if self._id_ in sources:
+            # (evaluated already under this binding. The evaluation that bound it may be suspended right now - one
+            # predicate call object used in several places of a condition -: the flags of the node are left alone unless a
+            # row is handed out)
             if self is self._conditions_root_ or isinstance(self._parent_, LogicalOperator):
-                original_me = self._id_expression_map_[self._id_]
-                self._is_false_ = original_me._is_false_
-                if not original_me._is_false_ or self._yield_when_false_:
+                if self._predicate_type_:
+                    # a predicate call is as true as the value it was bound to.
+                    is_false = bool(sources[self._id_].value) == self._invert_
+                else:
+                    is_false = self._id_expression_map_[self._id_]._is_false_
+                if not is_false or yield_when_false:
+                    self._is_false_ = is_false
                     yield sources
             else:
                 yield sources
-        elif self._domain_ and not self._is_inferred_:
+            return
+        self._yield_when_false_ = yield_when_false
+        if self._domain_ and not self._is_inferred_:
             if self._kwargs_expression_ and not self._evaluating_kwargs_expression_:
                 # because when kwargs expression exists,
                 # it will constrain the domain further to fit the kwargs provided.
